@@ -52,7 +52,9 @@ Inductive iop :=
 | IIns (x : item) | IDel (k : Z) | IDelMin | IDelMax
 | IGet (k : Z) | IHas (k : Z) | IMin | IMax | ILen
 | IScan (e : entry) (p q : Z) (m : Z).
-Inductive cop := CClone (src dst : nat) | COn (h : nat) (o : iop) | CSnap.
+(* CClear h b = handle h's Clear(b); CNew d = slot d becomes a new empty tree made with NewWithFreeList on the free
+   list all trees of the program share *)
+Inductive cop := CClone (src dst : nat) | COn (h : nat) (o : iop) | CSnap | CClear (h : nat) (tofl : bool) | CNew (dst : nat).
 
 (* ---------------- the model's step ---------------- *)
 Definition w_step (t : itree) (o : wop) : option (itree * obs) :=
